@@ -17,6 +17,7 @@
 
 enum { K_PTR, K_STR, K_BLK };
 static int is_set = 0, keykind = K_PTR;
+static size_t klen = 8;      /* keys=blk: the fixed key length in bytes (header klen=N, 1..16); bytes beyond it differ between aliases */
 static CC_HashTable *ht = NULL;
 static CC_HashSet *hs = NULL;
 
@@ -33,7 +34,8 @@ static void *key_of(unsigned long long w) {
     if (kw_n == MAXKEYS) vf_die("too many keys");
     kw_word[kw_n] = w;
     if (keykind == K_STR) snprintf(kw_store[kw_n].s, sizeof kw_store[kw_n].s, "k%llu", w % 1000);
-    else kw_store[kw_n].b = w % 1000;
+    else { memset(kw_store[kw_n].s, w >= 1000 ? 0x55 : 0xAA, sizeof kw_store[kw_n].s);
+           for (size_t i = 0; i < klen; i++) kw_store[kw_n].s[i] = (char)(i < 8 ? ((w % 1000) >> (8 * i)) & 0xFF : 0); }
     return &kw_store[kw_n++];
 }
 static unsigned long long word_of(const void *p) {
@@ -47,13 +49,13 @@ static unsigned long long word_of(const void *p) {
 static uint64_t canon(const void *p) {
     if (keykind == K_PTR) return (uint64_t)(uintptr_t)p;
     if (keykind == K_STR) return strtoull((const char *)p + 1, NULL, 10);
-    return *(const uint64_t *)p;
+    { uint64_t v = 0; for (size_t i = 0; i < klen && i < 8; i++) v |= (uint64_t)((const unsigned char *)p)[i] << (8 * i); return v; }
 }
 static size_t h_const0(const void *k, int l, uint32_t s) { (void)k; (void)l; (void)s; return 0; }
 static size_t h_mod4(const void *k, int l, uint32_t s) { (void)l; (void)s; return (size_t)(canon(k) % 4); }
 static size_t h_id(const void *k, int l, uint32_t s) { (void)l; (void)s; return (size_t)canon(k); }
 static int cmp_ptr(const void *a, const void *b) { return a == b ? 0 : ((uintptr_t)a < (uintptr_t)b ? -1 : 1); }
-static int cmp_blk(const void *a, const void *b) { return memcmp(a, b, 8); }
+static int cmp_blk(const void *a, const void *b) { return memcmp(a, b, klen); }
 
 /* ------------------------------------------------------------ sorted printing */
 typedef struct { unsigned long long k, v; } kv;
@@ -149,17 +151,18 @@ static void run_trace_header(int argc, char **argv) {
         if ((o = opt(argc, argv, "cap"))) conf.initial_capacity = vf_num(o);
         if ((o = opt(argc, argv, "lf"))) { unsigned long long a = 3, b = 4; sscanf(o, "%llu/%llu", &a, &b); conf.load_factor = (float)a / (float)b; }
         if ((o = opt(argc, argv, "seed"))) conf.hash_seed = (uint32_t)vf_num(o);
+        if ((o = opt(argc, argv, "klen"))) { klen = (size_t)vf_num(o); if (klen < 1 || klen > 16) vf_die("klen out of range"); }
         if ((o = opt(argc, argv, "hash"))) hk = o;
         if ((o = opt(argc, argv, "mem")) && !strcmp(o, "conf")) { use_conf = 1; conf.mem_alloc = vf_conf_malloc; conf.mem_calloc = vf_conf_calloc; conf.mem_free = vf_conf_free; }
         if (!strcmp(hk, "string")) { if (keykind != K_STR) vf_die("hash=string needs keys=str"); conf.hash = STRING_HASH; conf.key_length = KEY_LENGTH_VARIABLE; }
-        else if (!strcmp(hk, "general")) { if (keykind != K_BLK) vf_die("hash=general needs keys=blk"); conf.hash = GENERAL_HASH; conf.key_length = 8; }
+        else if (!strcmp(hk, "general")) { if (keykind != K_BLK) vf_die("hash=general needs keys=blk"); conf.hash = GENERAL_HASH; conf.key_length = (int)klen; }
         else if (!strcmp(hk, "pointer")) { if (keykind != K_PTR) vf_die("hash=pointer needs keys=ptr"); conf.hash = POINTER_HASH; conf.key_length = KEY_LENGTH_POINTER; }
         else if (!strcmp(hk, "const0")) conf.hash = h_const0;
         else if (!strcmp(hk, "mod4")) conf.hash = h_mod4;
         else if (!strcmp(hk, "id")) conf.hash = h_id;
         else vf_die("unknown hash kind");
         conf.key_compare = keykind == K_PTR ? cmp_ptr : keykind == K_BLK ? cmp_blk : cc_common_cmp_str;
-        if (keykind == K_BLK) conf.key_length = 8;
+        if (keykind == K_BLK) conf.key_length = (int)klen;
         if (keykind == K_PTR) conf.key_length = KEY_LENGTH_POINTER;
     }
     (void)use_conf;
